@@ -270,15 +270,12 @@ Proof.
   constructor; unfold cnt_stream, cnt_reset, ro; ssimp; rewrite ?E, ?Ho, ?Hq; cbn; auto; try congruence; try discriminate; try (intros _ _ x []).
 Qed.
 
-Lemma do_enable_C s : InvC s -> panicked s = false -> late (fst (do_enable s)) = false -> stepC s (fst (do_enable s)).
+Lemma do_enable_C s : InvC s -> panicked s = false -> stepC s (fst (do_enable s)).
 Proof.
-  intros H P HL. unfold do_enable in *. cbn [fst] in *. ssimp. apply orb_false_iff in HL. destruct HL as [_ HL].
-  split; [|exact P]. destruct H as [H1 H2 H3 H4].
-  destruct (supportsRSA s) eqn:ES.
-  - constructor; unfold cnt_stream, cnt_reset, ro in *; ssimp; rewrite ?ES in *; auto.
-  - rewrite andb_true_r in HL. apply isSome_false in HL. destruct (H2 HL) as [Ho Hq].
-    unfold cnt_stream, cnt_reset in H1. rewrite HL, Ho in H1. cbn in H1.
-    constructor; unfold cnt_stream, cnt_reset, ro; ssimp; rewrite ?HL, ?Ho, ?Hq; cbn; auto; try congruence; try discriminate; try (intros _ _ x []).
+  intros H P. unfold do_enable. destruct (isSome (resetErr s)) eqn:E; [split; auto|].
+  apply isSome_false in E. destruct H as [H1 H2 H3 H4]. destruct (H2 E) as [Ho Hq].
+  cbn [fst]. split; [|exact P]. unfold cnt_stream, cnt_reset in H1. rewrite E, Ho in H1. cbn in H1.
+  constructor; unfold cnt_stream, cnt_reset, ro; ssimp; rewrite ?E, ?Ho, ?Hq; cbn; auto; try congruence; try discriminate; try (intros _ _ x []).
 Qed.
 
 Lemma max_data_len_le sid0 off mb : max_data_len sid0 off mb <= Z.max 0 mb.
